@@ -104,7 +104,7 @@ def run_case(case):
         src_pause = lambda k: 0.002  # noqa: E731
     elif prof == 'long-stall':
         # the consumer stops pulling for longer than the usual polling constants (0.1 s, 1 s) while everything upstream is full
-        cons_pause = lambda k: (1.12 if k == 3 else (0.13 if k == 6 else 0))  # noqa: E731
+        cons_pause = lambda k: (2.25 if k == 3 else (1.12 if k == 6 else (0.13 if k == 9 else 0)))  # noqa: E731  (during a stall the consumer holds nothing, so one extra element still fits the bound: stall for two polling periods)
     elif prof == 'bursty':
         cons_pause = lambda k: 0.02 if k % 17 == 0 else 0  # noqa: E731
         work_sleep = 0.0005
